@@ -31,6 +31,12 @@ type HarnessRun struct {
 	What      string
 	MaxSteps  int
 	ConcCap   int
+	// Only, when set, restricts which assertion labels of the harness count for
+	// THIS property (substring match): a harness written for another property
+	// can lend its property-specific oracle (e.g. the grammar monitor) without
+	// its other assertions being reported under the wrong property id. Panics
+	// that escape always count.
+	Only []string
 }
 
 // PropSpec is the registry entry of one property.
@@ -429,6 +435,10 @@ func cmdCheck(args []string) int {
 		}
 		var cexs []cex
 		for _, l := range interp.SortedKeys(rr.Violations) {
+			if len(run.Only) > 0 && !matchesAny(l, run.Only) {
+				fmt.Printf("note: %s: assertion %q (another property's oracle) is violated; not counted for %s\n", run.Entry, l, id)
+				continue
+			}
 			cexs = append(cexs, cex{l, rr.Violations[l], false})
 		}
 		for _, l := range interp.SortedKeys(rr.Panics) {
@@ -692,4 +702,13 @@ func cmdReplay(args []string) int {
 		return 1
 	}
 	return 0
+}
+
+func matchesAny(label string, subs []string) bool {
+	for _, s := range subs {
+		if strings.Contains(label, s) {
+			return true
+		}
+	}
+	return false
 }
